@@ -918,6 +918,14 @@ func nilTestOf(cond ssa.Value, truth bool) (ssa.Value, bool, bool) {
 		}
 		cond, truth = u.X, !truth
 	}
+	if call, isCall := cond.(*ssa.Call); isCall {
+		// a predicate of the module: what its answer says about one of its arguments (p(x) written as x != nil, or as
+		// x != nil && ...: answered true, x is not nil)
+		if x, isNil, ok := nilFactOfPredicate(call, truth, predicateDepth); ok {
+			return x, isNil, true
+		}
+		return nil, false, false
+	}
 	bin, ok := cond.(*ssa.BinOp)
 	if !ok || bin.Op != token.EQL && bin.Op != token.NEQ {
 		return nil, false, false
@@ -936,4 +944,43 @@ func nilTestOf(cond ssa.Value, truth bool) (ssa.Value, bool, bool) {
 		return nil, false, false
 	}
 	return x, (bin.Op == token.EQL) == truth, true
+}
+
+var predicateDepth int
+
+// nilFactOfPredicate: the call of a bool function with a body, answered `truth`: a nil-ness this establishes for one of
+// the arguments. The function has one return; its value known to be `truth` gives facts (directly, or through the joins
+// of && and ||) and a fact that is a nil test of a parameter is handed back for the argument.
+func nilFactOfPredicate(call *ssa.Call, truth bool, depth int) (ssa.Value, bool, bool) {
+	f := call.Call.StaticCallee()
+	if f == nil || f.Blocks == nil || depth > 2 || f.Signature.Results().Len() != 1 || !isBoolType(f.Signature.Results().At(0).Type()) {
+		return nil, false, false
+	}
+	var ret *ssa.Return
+	for _, b := range f.Blocks {
+		if r, ok := lastInstr(b).(*ssa.Return); ok {
+			if ret != nil {
+				return nil, false, false
+			}
+			ret = r
+		}
+	}
+	if ret == nil || len(ret.Results) != 1 {
+		return nil, false, false
+	}
+	facts := append([]guard{{nil, ret.Results[0], truth}}, boolVarFacts(nil, ret.Results[0], truth, 0)...)
+	predicateDepth++
+	defer func() { predicateDepth-- }()
+	for _, g := range facts {
+		x, isNil, ok := nilTestOf(g.Cond, g.Truth)
+		if !ok {
+			continue
+		}
+		for i, prm := range f.Params {
+			if x == ssa.Value(prm) && i < len(call.Call.Args) {
+				return call.Call.Args[i], isNil, true
+			}
+		}
+	}
+	return nil, false, false
 }
